@@ -60,10 +60,15 @@ def reply_frames(tr: str, req: bytes, replies: list[bytes]) -> list[tuple[str, b
     return out + [("data", hsfz_frame(1, bytes([H_DST, H_SRC]) + r)) for r in replies]
 
 
+def script_replies(script: str) -> list[bytes]:
+    """'final' | 'pending' (one ResponsePending first) | 'pending2' | 'pending3'"""
+    n = 0 if script == "final" else (1 if script == "pending" else int(script[len("pending"):]))
+    return [PENDING] * n + [final(0)]
+
+
 def reply_stream(tr: str, script: str) -> list[tuple[str, bytes]]:
     """the reply stream of connection #0 to the request REQ: script 'final' or 'pending' (7f 22 78, then the final reply)"""
-    replies = [final(0)] if script == "final" else [PENDING, final(0)]
-    return reply_frames(tr, REQ, replies)
+    return reply_frames(tr, REQ, script_replies(script))
 
 
 class Conn:
